@@ -468,9 +468,14 @@ class Interp:
         self.unknown_calls = set()
         self.div_vids = set()
         self.cur_line = 0
+        # upstream guarantees about values that enter from the assembler's context (checked by C12.R6)
+        self.range_hints = {".map": (0, 0xFFFF)}
 
     # -- atoms --------------------------------------------------------------------------------
     def new_atom(self, ty, name, lo=None, hi=None):
+        for suffix, (hlo, hhi) in self.range_hints.items():
+            if name.endswith(suffix) and lo is None and hi is None:
+                lo, hi = hlo, hhi
         v = IntV.atom(ty, name, lo, hi)
         self.atoms[name] = (ty, v.lo, v.hi)
         if self.assume:
@@ -555,8 +560,15 @@ class Interp:
             return TopV("uninit")
         pre, idx, post = self._split_mem(path)
         if any(isinstance(p, tuple) and p[0] in ("top", "vv") for p in pre):
-            v = get_path(base, [p for p in pre if not (isinstance(p, tuple) and p[0] in ("top", "vv"))][:0])
-            return TopV("?", base.deps())
+            # deref of an opaque value: the opaque value itself (keeps its tag), anything deeper is unknown
+            cut = next(i for i, p in enumerate(pre) if isinstance(p, tuple) and p[0] in ("top", "vv"))
+            try:
+                v = get_path(base, pre[:cut])
+            except Unsupported:
+                return TopV("?", base.deps())
+            if v.kind == "top" and cut == len(pre) - 1 and idx is None:
+                return v
+            return TopV("?", v.deps())
         v = get_path(base, pre)
         if idx is None:
             return v
